@@ -182,12 +182,22 @@ def _from(b, discard_site, src_site):
 def r06f(ck, fb):
     ck.rule('R06f', 'the follower\'s temporary value never replaces a newer committed value: ConfigActor::set_tmp_config runs when the leader\'s answer '
                     'for a routed write arrives, which can be AFTER the follower applied that write and a later one for the same key; the overwrite of '
-                    'an existing entry must therefore be conditional on something that tells "this entry is older than my write" (a guard on the '
-                    'stored value), not unconditional. (Structural necessary condition; which comparison is right is not decided.)')
+                    'an existing entry must therefore be conditional on something that tells "this entry is older than my write": a test that '
+                    'depends on more than the new content and the stored content / md5 / tmp mark (equal or different content does not say which '
+                    'is newer). (Structural necessary condition; which ordering datum is right is not decided.)')
     b = ck.body(CA + '::set_tmp_config', 'R06f')
     if not b:
         return
-    from rn.facts import pl_proj
+    from rn.facts import pl_proj, pl_fields
+    # what can order the temporary value against the stored one: anything but the new content itself and the stored content / md5 / tmp mark
+    # (equal or different content says nothing about which of the two is newer). Today the message carries key and value only.
+    nargs = b.rec.get('argc', 3)
+    not_ordering = ('content', 'md5', 'tmp', 'cache')
+
+    def orders(p):
+        fs = pl_fields(p)
+        return bool(fs) and not str(fs[-1]).isdigit() and fs[-1] not in not_ordering
+    t_other = Taint(b, place_src=orders, local_src=[l for l in range(4, nargs + 1)])
     n = 0
     for (i, j, st) in b.stmts():
         d = st.get('d')
@@ -198,8 +208,16 @@ def r06f(ck, fb):
             continue
         n += 1
         atoms = [a for a in cfg.guard_atoms(b, i) if not (a[0] == 'variant' and a[2] == 'Some') and a[0] != 'other']
-        ck.require(bool(atoms), 'R06f', 'set_tmp_config:overwrites-unconditionally', b.where(i),
-                   'set_tmp_config replaces the content of an existing entry without looking at it: apply(A), apply(B), then the late temporary value A '
-                   'of the routed write leaves this node serving A while every other node serves B, until the key is written again',
-                   'guarded by %s' % [cfg.fmt_atom(a) for a in atoms])
+        ordering = []
+        for a in atoms:
+            sw = a[-1]
+            term = b.blocks[sw]['t'] if isinstance(sw, int) and sw < len(b.blocks) else None
+            if term is not None and term.get('k') == 'switch' and t_other.op_tainted(term['discr']):
+                ordering.append(a)
+        ck.require(bool(ordering), 'R06f', 'set_tmp_config:overwrites-unconditionally', b.where(i),
+                   'set_tmp_config replaces the content of an existing entry without looking at anything that tells which of the two is newer%s: '
+                   'apply(A), apply(B), then the late temporary value A of the routed write leaves this node serving A while every other node '
+                   'serves B, until the key is written again' % (
+                       ' (the only test, %s, compares contents)' % [cfg.fmt_atom(a) for a in atoms] if atoms else ''),
+                   'guarded by %s' % [cfg.fmt_atom(a) for a in ordering])
     ck.floor('R06f', 'content overwrite sites in set_tmp_config', n, 1)
